@@ -340,6 +340,26 @@ def merge(c, a, b, t):
     raise ValueError(t)
 
 
+def assume_value(v, t, c, val):
+    """simplify a source value that is only used when the 1-bit term c has value val (don't-care elsewhere)"""
+    if c.op == "c":
+        return v
+    k = t[0]
+    if k == "u" or k == "bool":
+        return T.assume_deep(v, c, val)
+    if k == "tuple":
+        return tuple(assume_value(x, e, c, val) for x, e in zip(v, t[1]))
+    if k == "array":
+        return tuple(assume_value(x, t[1], c, val) for x in v)
+    if k == "option":
+        return VOpt(T.assume_deep(v.tag, c, val), assume_value(v.val, t[1], c, val))
+    if k == "either":
+        return VEi(T.assume_deep(v.tag, c, val), assume_value(v.l, t[1], c, val), assume_value(v.r, t[2], c, val))
+    if k == "list":
+        return VList([(T.assume_deep(p, c, val), tuple(assume_value(x, t[1], c, val) for x in es)) for p, es in v.blocks])
+    raise ValueError(t)
+
+
 def const_value(t, pv):
     """python value -> source value.  ints for u/bool, tuples/lists for products,
     None / ('some', x) for options, ('left', x)/('right', x) for eithers, python list for lists"""
@@ -867,13 +887,13 @@ class Spec:
             return v, T.or_(fails, f)
         if isinstance(e, Unwrap):
             v, f = self.eval(e.e, env)
-            return v.val, T.or_(f, T.not_(v.tag))
+            return assume_value(v.val, e.ty, v.tag, 1), T.or_(f, T.not_(v.tag))
         if isinstance(e, UnwrapLeft):
             v, f = self.eval(e.e, env)
-            return v.l, T.or_(f, v.tag)
+            return assume_value(v.l, e.ty, v.tag, 0), T.or_(f, v.tag)
         if isinstance(e, UnwrapRight):
             v, f = self.eval(e.e, env)
-            return v.r, T.or_(f, T.not_(v.tag))
+            return assume_value(v.r, e.ty, v.tag, 1), T.or_(f, T.not_(v.tag))
         if isinstance(e, IsNone):
             v, f = self.eval(e.e, env)
             return T.not_(v.tag), f
@@ -916,12 +936,13 @@ class Spec:
             if tag.op == "c" and bool(tag.val) != side:
                 continue  # only the taken arm runs
             scope = []
+            # the bound payload only matters when this arm is the taken one
             if arm.kind == "some":
-                scope.append((arm.var, sv.val))
+                scope.append((arm.var, assume_value(sv.val, arm.var_ty, tag, 1)))
             elif arm.kind == "left":
-                scope.append((arm.var, sv.l))
+                scope.append((arm.var, assume_value(sv.l, arm.var_ty, tag, 0)))
             elif arm.kind == "right":
-                scope.append((arm.var, sv.r))
+                scope.append((arm.var, assume_value(sv.r, arm.var_ty, tag, 1)))
             res[side] = self.eval(arm.expr, env + [scope])
         if tag.op == "c":
             v, f = res[bool(tag.val)]
@@ -983,3 +1004,89 @@ class Spec:
             result = merge(cont, result, r, ret_ty)
             rest_fails = T.or_(f, T.and_(cont, rest_fails))
         return result, T.or_(fails, rest_fails)
+
+
+# ----------------------------------------------------------------------------------------
+# tracked call sites (debug symbols): what the book-level program text says should be tracked
+
+
+def _nows(s):
+    return "".join(s.split())
+
+
+def tracked_calls(prog):
+    """set of (kind, text without whitespace) of every assert!/panic!/unwrap*/dbg!/jet call that is part of
+    the code reachable from main (function bodies are inlined at their call sites)"""
+    pr = Printer(prog.aliases)
+    out = set()
+    seen_fns = set()
+
+    def walk(e):
+        if e is None:
+            return
+        if isinstance(e, (Lit, BoolLit, Wit, Param, Var, NoneE)):
+            return
+        if isinstance(e, Paren):
+            return walk(e.e)
+        if isinstance(e, (TupleE, ArrayE, ListE)):
+            for x in e.elems:
+                walk(x)
+            return
+        if isinstance(e, (SomeE, LeftE, RightE)):
+            return walk(e.e)
+        if isinstance(e, Block):
+            for s in e.stmts:
+                walk(s.e)
+            return walk(e.expr)
+        if isinstance(e, Match):
+            walk(e.scrut)
+            for a in e.arms:
+                walk(a.expr)
+            return
+        if isinstance(e, Call):
+            for a in e.args:
+                walk(a)
+            return walk_fn(e.fn)
+        if isinstance(e, JetCall):
+            out.add(("Jet", _nows(pr.expr(e))))
+            for a in e.args:
+                walk(a)
+            return
+        if isinstance(e, Unwrap):
+            out.add(("Unwrap", _nows(pr.expr(e))))
+            return walk(e.e)
+        if isinstance(e, UnwrapLeft):
+            out.add(("UnwrapLeft", _nows(pr.expr(e))))
+            return walk(e.e)
+        if isinstance(e, UnwrapRight):
+            out.add(("UnwrapRight", _nows(pr.expr(e))))
+            return walk(e.e)
+        if isinstance(e, Assert):
+            out.add(("Assert", _nows(pr.expr(e))))
+            return walk(e.e)
+        if isinstance(e, Panic):
+            out.add(("Panic", _nows(pr.expr(e))))
+            return
+        if isinstance(e, Dbg):
+            out.add(("Debug", _nows(pr.expr(e.e))))
+            return walk(e.e)
+        if isinstance(e, (IsNone, Cast)):
+            return walk(e.e)
+        if isinstance(e, Fold):
+            walk(e.lst)
+            walk(e.init)
+            return walk_fn(e.fn)
+        if isinstance(e, ForWhile):
+            walk(e.acc)
+            walk(e.ctx)
+            return walk_fn(e.fn)
+        raise SpecError("tracked_calls: %r" % e)
+
+    def walk_fn(f):
+        if id(f) in seen_fns:
+            return
+        seen_fns.add(id(f))
+        walk(f.body)
+
+    walk(prog.main)
+    return out
